@@ -51,6 +51,9 @@ func (c19) Gen(r *rand.Rand, tier string, idx int) *core.Plan {
 	p.World["disk"] = int64(r.IntN(2))
 	p.World["remote"] = int64(r.IntN(3) / 2) // a third of the runs present the store as a remote registry (two endpoints, paged referrers API)
 	p.World["page"] = int64(r.IntN(4))
+	if r.IntN(3) == 0 {
+		p.World["cancel"] = int64(1 + r.IntN(40))
+	}
 	p.World["rotate"] = int64(r.IntN(5))
 	n := 2 + r.IntN(13)
 	for i := 0; i < n; i++ {
@@ -130,7 +133,20 @@ func (l c19) Exec(env *core.Env) *core.Result {
 		inner.Tag(ctx, d, fmt.Sprintf("v%d", i))
 		subjects = append(subjects, d)
 	}
-	sim := core.NewSim(env, nil, 20000)
+	// a listing may run under a context that ends at its n-th registry / file-system operation
+	armed, fired := -1, false
+	var disarm context.CancelFunc
+	var lister *rt.Task
+	sim := core.NewSim(env, func(t *rt.Task, op rt.Op, fault string) {
+		if armed < 0 || op.Kind == "yield" || t != lister {
+			return
+		}
+		if armed == 0 && disarm != nil {
+			disarm()
+			disarm, fired = nil, true
+		}
+		armed--
+	}, 20000)
 	defer func() { rt.Cur = nil }()
 	model := map[int][]c19Sig{}
 	hostile := map[int]map[digest.Digest]string{0: {}, 1: {}, 2: {}} // manifest digest -> why
@@ -138,6 +154,7 @@ func (l c19) Exec(env *core.Env) *core.Result {
 	crossManifests := map[digest.Digest]bool{} // signature manifests whose one "blob" is itself a manifest
 	var trace []map[string]any
 	var task *rt.Task
+	listNo := 0
 	task = sim.Go("client", func() {
 		tgt := &world.Target{Inner: inner, Rotate: int(p.W("rotate"))}
 		mkRepo := func() registry.Repository {
@@ -304,10 +321,25 @@ func (l c19) Exec(env *core.Env) *core.Result {
 				before := task.FaultsSeen
 				var listed []ocispec.Descriptor
 				tgt.FetchLog = nil
-				lerr := repo.ListSignatures(ctx, subjects[s], func(ds []ocispec.Descriptor) error {
+				lctx := ctx
+				fired = false
+				listNo++
+				if p.W("cancel") > 0 && int64(listNo)%2 == p.W("cancel")%2 {
+					// the caller's context ends somewhere inside this listing: it fails, or lists everything
+					var cancel context.CancelFunc
+					lctx, cancel = context.WithCancel(ctx)
+					lister, armed, disarm = task, int((p.W("cancel")/2+int64(listNo))%7), cancel
+					res.Probe("listing_under_a_context_that_ends_midway")
+				}
+				lerr := repo.ListSignatures(lctx, subjects[s], func(ds []ocispec.Descriptor) error {
 					listed = append(listed, ds...)
 					return nil
 				})
+				armed = -1
+				if disarm != nil {
+					disarm()
+					disarm = nil
+				}
 				bigHostile := false
 				for _, why := range hostile[s] {
 					bigHostile = bigHostile || why == "5 MiB manifest"
@@ -323,7 +355,7 @@ func (l c19) Exec(env *core.Env) *core.Result {
 					}
 				}
 				if lerr != nil {
-					if task.FaultsSeen == before && !bigHostile {
+					if task.FaultsSeen == before && !bigHostile && !fired {
 						res.Violate("C19/listing-failed", fmt.Sprint("subject ", s), "ListSignatures failed with no injected fault and no oversized referrer: %v", lerr)
 					}
 					sim.Abstract(fmt.Sprint("list", s, "err"))
